@@ -11,7 +11,7 @@ import os
 from .common import *
 
 INVARIANTS = ["PosCounts", "BlockAligned", "UnitsSane", "OutIsEncode", "OutIsPrefix", "FullRoundTrip",
-              "EpsRoundTrip", "BorrowsInPlace", "RowsWithin", "RowsPreorder", "RowsAligned", "PaddingZero",
+              "EpsRoundTrip", "BorrowsInPlace", "AllocsAreSkeleton", "ScaleInvariant", "RowsWithin", "RowsPreorder", "RowsAligned", "PaddingZero",
               "SchemaTiles", "SchemaTopTiles"]
 
 FIXED = {"UsizeBytes": 8, "ZstUnit": 1, "TupleRangeConstTrue": False, "BugSliceFree": False, "BugCFlowTags": False, "BugOptTag": False,
@@ -187,13 +187,6 @@ def judge(pid, b, o, f, V):
             viol(f"{key}: ε-copy consumed {e.get('rpos')} of {total} bytes", "consumed")
         elif e.get("st") not in ("ok", None):
             viol(f"{key}: ε-copy did not consume the {total} bytes that were written: {e.get('st')} {e.get('msg', '')}", "consumed")
-        # a structure of blocks other than the one the format prescribes (e.g. an empty block written without
-        # its padding) means some block is not where a reader will look for it
-        exp_b = [(r["off"], r["align"]) for r in b["rows"] if r["field"][-1] == "zero"]
-        got_b = [(ev["pos"], ev["unit"]) for ev in s.get("ev", []) if ev["ev"] == "block"]
-        if len(exp_b) != len(got_b):
-            viol(f"{key}: {len(got_b)} zero-copy blocks were written, the format has {len(exp_b)} for this value "
-                 f"(an empty block still gets its padding)", "blocks")
         # the serializer's structure must be the one the specification's machine went through
         exp_blocks = [(r["off"], r["size"], r["align"]) for r in b["rows"] if r["field"][-1] == "zero"]
         got_blocks = [(ev["pos"], ev["len"], ev["unit"]) for ev in s.get("ev", []) if ev["ev"] == "block"]
@@ -274,14 +267,51 @@ def schema_geometry(rows, out):
 
 
 # which recorded events each property looks at, and which rejected events are *its* alarm
+ALLK = ["enter", "exit", "align", "block", "w", "flush", "ret", "rows", "full", "eps"]
 TRACE_FILTER = {
-    "C01": ({"init", "full"}, {"full"}),
-    "C02": ({"init", "eps"}, {"eps"}),
-    "C03": (None, {"eps"}),
-    "C06": ({"init", "enter", "exit", "align", "block", "w", "flush", "ret"}, {"enter", "exit", "align", "block", "w", "flush", "ret"}),
-    "C07": ({"init", "enter", "exit", "align", "block", "w", "flush", "ret", "full"}, {"align", "block", "ret", "full"}),
-    "C18": (None, {"rows"}),
+    # C01 / C02: only what the readers returned for the recorded stream
+    "C01": (["full"], {"full"}),
+    "C02": (["eps"], {"eps"}),
+    # C03: the whole structure (the borrow check needs the machine's block rows)
+    "C03": (ALLK, {"eps"}),
+    # C06: the byte stream only (however many write_all calls carried it) and the returned count
+    "C06": (["w", "ret"], {"w", "ret"}),
+    # C07: alignment requests with the real units, the bytes (padding), the counts
+    "C07": (["align", "w", "ret", "full"], {"align", "w", "ret", "full"}),
+    "C18": (ALLK, {"rows"}),
 }
+
+
+def prep_trace(lines, keep):
+    """Post-process recorded events for Trace_Ser: keep the chosen kinds, merge consecutive write_all
+    calls into one `w` event, tell the specification (in `init`) which kinds were kept."""
+    out = []
+    lastw = None
+    for line in lines:
+        e = json.loads(line) if isinstance(line, str) else line
+        k = e["ev"]
+        if k == "init":
+            e = dict(e, keep=list(keep))
+            out.append(e)
+            lastw = None
+            continue
+        if k not in keep:
+            lastw = None      # a filtered-out structural event still ends a run of consecutive writes
+            continue
+        if k == "w":
+            if not e["bytes"]:
+                continue
+            if lastw is not None:
+                lastw["bytes"] = lastw["bytes"] + e["bytes"]
+                continue
+            lastw = dict(e)
+            out.append(lastw)
+            continue
+        lastw = None
+        out.append(e)
+    return [json.dumps(e) for e in out]
+
+
 WHAT = {"full": "full-copy deserialization of a recorded stream did not return the serialized value / consume it",
         "eps": "ε-copy deserialization of a recorded stream did not return the serialized value, or a borrowed part "
                "is not a block the serializer wrote",
@@ -295,18 +325,14 @@ WHAT = {"full": "full-copy deserialization of a recorded stream did not return t
 def trace_validation(pid, tier, seed, V, tag):
     """impl -> spec: recorded executions on random types and values validated against Trace_Ser.tla"""
     from .cursor import split_runs
-    runs, maxlen = (150, 30) if tier == "quick" else (1500, 120)
+    runs, maxlen = (400, 40) if tier == "quick" else (4000, 150)
     raw = os.path.join(WORK, tag, "recorded.ndjson")
     open(raw, "w").write(harness(["record", str(seed), str(runs), str(maxlen)], timeout=3000))
     keep, mine = TRACE_FILTER[pid]
     path = os.path.join(WORK, tag, f"trace_{pid}.ndjson")
-    nev = 0
-    with open(path, "w") as f:
-        for line in open(raw):
-            ev = json.loads(line)["ev"]
-            if keep is None or ev in keep:
-                f.write(line)
-                nev += 1
+    lines = prep_trace(open(raw).read().splitlines(), keep)
+    nev = len(lines)
+    open(path, "w").write("\n".join(lines) + "\n")
     acc, rej = validate_ser_traces(path, tag, V, pid, mine)
     V.cov["traces_validated_against_impl"] += acc
     V.cov["recorded_runs"] = acc + rej
@@ -329,7 +355,7 @@ def validate_ser_traces(path, tag, V, pid, mine):
             for r in pending:
                 f.writelines(r)
         cfg = os.path.join(WORK, tag, "tser.cfg")
-        write_cfg(cfg, consts, init="TInit", next_="TNext", invariants=["TPosCounts", "TBlockAligned"],
+        write_cfg(cfg, consts, init="TInit", next_="TNext", invariants=["Furthest", "TPosCounts", "TBlockAligned"],
                   extra="POSTCONDITION Accepted")
         r = tlc("Trace_Ser", cfg, tag, env={"TRACE": p}, workers=1, timeout=3000,
                 java_opts=["-Xss1g", "-Dtlc2.tool.queue.IStateQueue=StateDeque"])
@@ -368,6 +394,32 @@ def validate_ser_traces(path, tag, V, pid, mine):
         accepted += bad
         pending = pending[bad + 1:]
     return accepted, rejected
+
+
+def alloc_independence(beh, obs, V, tag):
+    """C03, second half: the bytes allocated by deserialize_eps are the same for the value and for the value with
+    every borrowed sequence 3 and 16 times as long (values scaled by the specification's Scale operator)."""
+    cases, meta = [], []
+    for b, o in zip(beh, obs):
+        if b["mode"] != "pub" or not b.get("vscaled") or not o or "eps" not in o or o["eps"].get("st") != "ok":
+            continue
+        for vs in b["vscaled"]:
+            cases.append({"key": b["key"], "cmd": "rt", "v": vs, "mode": "pub", "base": 0})
+            meta.append((b, o))
+    res = replay(cases, tag + "_scale")
+    n = 0
+    for (b, o), r in zip(meta, res):
+        if not r or "eps" not in r or r["eps"].get("st") != "ok":
+            continue
+        n += 1
+        V.count(("scale", b["key"], json.dumps(b["v"])), True)
+        a0, a1 = o["eps"]["alloc_bytes"], r["eps"]["alloc_bytes"]
+        if a0 != a1:
+            V.violate(f"C03:alloc:{b['key']}", f"{b['key']}: ε-copy deserialization allocates {a0} bytes for a value and {a1} "
+                      f"bytes for the same skeleton with longer borrowed sequences: the borrowed payload is being copied",
+                      {"behaviour": {k: b[k] for k in ("key", "v")}, "alloc_bytes": [a0, a1],
+                       "alloc_calls": [o["eps"]["alloc_calls"], r["eps"]["alloc_calls"]]})
+    V.cov["scaled_cases"] = n
 
 
 def corpus_check(tier, seed, V, tag, facts):
@@ -455,9 +507,11 @@ def check(pid, tier, seed, V, facts, names_path):
         raise ToolError("TLC printed no behaviours")
     cases = [dict(b, cmd="rt") for b in beh]
     for c in cases:
-        for k in ("ser", "rows", "full", "eps"):
+        for k in ("ser", "rows", "full", "eps", "vscaled"):
             c.pop(k, None)
     obs = replay(cases, tag)
+    if pid == "C03":
+        alloc_independence(beh, obs, V, tag)
     for b, o in zip(beh, obs):
         judge(pid, b, o, facts, V)
     trace_validation(pid, tier, seed, V, tag)
